@@ -153,6 +153,10 @@ func checkTraversal(kind byte, w []byte, buf *rjson.Buffer, choose func(n int) i
 // handlerNodes generates the E1 node set for the handler machines (decline-all handler: the
 // machine is then a pure byte automaton) and calls perNode on every node.
 func handlerNodes(r *eng.Run, kind byte, D, K, maxStates int, perNode func(w []byte, a *ref.PDA, nCalls int)) e1Result {
+	return handlerNodesPump(r, kind, D, K, maxStates, false, perNode)
+}
+
+func handlerNodesPump(r *eng.Run, kind byte, D, K, maxStates int, pump bool, perNode func(w []byte, a *ref.PDA, nCalls int)) e1Result {
 	sp := e1Spec{
 		entry: entryOf(kind),
 		probe: func(w []byte) {
@@ -175,7 +179,7 @@ func handlerNodes(r *eng.Run, kind byte, D, K, maxStates int, perNode func(w []b
 			}
 			return a.Alive() && a.Phase != ref.PDone
 		},
-		noPump: true,
+		noPump: !pump,
 	}
 	return runE1(r, sp, D, K, maxStates)
 }
@@ -188,7 +192,7 @@ func handlerProps(r *eng.Run, id string) {
 	sentinel := errors.New("sentinel stop")
 	for _, kind := range []byte{'[', '{'} {
 		kind := kind
-		res := handlerNodes(r, kind, D, K, r.Pick(150000, 1500000), func(w []byte, a *ref.PDA, nCalls int) {
+		res := handlerNodesPump(r, kind, D, K, r.Pick(150000, 1500000), id == "C07", func(w []byte, a *ref.PDA, nCalls int) {
 			switch id {
 			case "C07":
 				st := eng.ExploreChoices(func(c *eng.Chooser) {
@@ -294,8 +298,42 @@ func handlerProps(r *eng.Run, id string) {
 }
 
 // checkErrorStop is C09's oracle on one node: returns executions.
-func checkErrorStop(r *eng.Run, kind byte, w []byte, nCalls int, sentinel error) int {
+type typedNilErr struct{}
+
+func (*typedNilErr) Error() string { return "typed nil error" }
+
+// errorVariants are the error values a handler may return: a plain sentinel, a non-nil error
+// interface holding a nil pointer, and an error value obtained from the library itself.
+func errorVariants(sentinel error) []error {
+	var tn *typedNilErr
+	_, libErr := rjson.SkipValue([]byte(`[1,[2,3`), nil)
+	_, libErr2 := rjson.SkipValue([]byte(`{"a":}`), nil)
+	return []error{sentinel, tn, libErr, libErr2}
+}
+
+func checkErrorStop(r *eng.Run, kind byte, w []byte, nCalls int, sentinel0 error) int {
 	n := 0
+	for vi, sentinel := range errorVariants(sentinel0) {
+		if vi > 0 && nCalls > 0 {
+			// the other error kinds: every failing call index with the exact offset only
+			for k := 0; k < nCalls && k < 8; k++ {
+				calls, _, err := traverse(kind, w, nil, func(i int, data []byte) answer {
+					if i == k {
+						_, exact := ref.Run(data).FirstValue()
+						return answer{mode: 3, n: exact, err: sentinel}
+					}
+					return answer{mode: 0}
+				})
+				n++
+				if err != sentinel || len(calls) != k+1 {
+					r.Violation(eng.Replay{Engine: "handler", Entry: entryOf(kind), Sig: fmt.Sprintf("error-stop/variant#%d/k=%d/%s", vi, k, shortSig(w)), InputB64: append([]byte(nil), w...),
+						Expected: fmt.Sprintf("the handler's own error value (%T) itself, %d handler calls", sentinel, k+1), Got: fmt.Sprintf("%s (identical=%v), %d calls", errStr(err), err == sentinel, len(calls)),
+						Extra: map[string]interface{}{"kind": string(kind), "k": k, "variant": vi}})
+				}
+			}
+		}
+	}
+	sentinel := sentinel0
 	for k := 0; k < nCalls && k < 8; k++ {
 		for _, base := range []int{0, 1} {
 			for oi := 0; oi < 8; oi++ {
